@@ -207,6 +207,25 @@ Record pps := mkPps {
   pps_pic_scaling_lists : list (option (list Z));
   pps_second_chroma_qp_index_offset : Z }.
 
+Record slice_hdr := mkSh {
+  sh_slice_type : N; sh_first_mb_in_slice : N; sh_pic_param_id : N; sh_seq_param_id : N;
+  sh_color_plane_id : N; sh_frame_num : N; sh_idr_pic_id : N; sh_pic_order_cnt_lsb : N;
+  sh_delta_pic_order_cnt_bottom : Z; sh_delta_pic_order_cnt0 : Z; sh_delta_pic_order_cnt1 : Z;
+  sh_redundant_pic_cnt : N; sh_num_ref_idx_l0_active_minus1 : N; sh_num_ref_idx_l1_active_minus1 : N;
+  sh_modification_of_pic_nums_idc : N; sh_abs_diff_pic_num_minus1 : N; sh_long_term_pic_num : N;
+  sh_abs_diff_view_idx_minus1 : N; sh_luma_log2_weight_denom : N; sh_chroma_log2_weight_denom : N;
+  sh_difference_of_pic_nums_minus1 : N; sh_long_term_frame_idx : N; sh_max_long_term_frame_idx_plus1 : N;
+  sh_cabac_init_idc : N; sh_slice_qp_delta : Z; sh_slice_qs_delta : Z;
+  sh_disable_deblocking_filter_idc : N; sh_slice_alpha_c0_offset_div2 : Z; sh_slice_beta_offset_div2 : Z;
+  sh_slice_group_change_cycle : N; sh_size : N;
+  sh_field_pic : bool; sh_bottom_field : bool; sh_direct_spatial_mv_pred : bool;
+  sh_num_ref_idx_active_override : bool; sh_ref_pic_list_modification_l0 : bool;
+  sh_ref_pic_list_modification_l1 : bool; sh_no_output_of_prior_pics : bool;
+  sh_long_term_reference : bool; sh_sp_for_switch : bool; sh_adaptive_ref_pic_marking_mode : bool }.
+
+(* int32(x) of a Go int *)
+Definition i32 (z : Z) : Z := ((z + 2147483648) mod 4294967296 - 2147483648)%Z.
+
 (* bits.CeilLog2 *)
 Fixpoint ceil_log2_from (fuel : nat) (i n : N) : N :=
   match fuel with
@@ -217,6 +236,7 @@ Definition ceil_log2 (n : N) : N := ceil_log2_from 32 0 n.
 
 (* ------------------------------------------------------------------ the parsers *)
 Definition loop_bound : N := 65536.
+Definition loop_fuel : nat := N.to_nat loop_bound.
 
 Section Parsers.
   Context {St : Type} (R : reader St).
@@ -380,7 +400,7 @@ Section Parsers.
 
   (* ---- the pic_order_cnt_type switch: the three se(v) elements are read with ReadExpGolomb *)
   Definition parse_sps_poc (poc_type : N) : M (N * bool * N * N * list N) :=
-    if poc_type =? 0 then l <- rd_ue ;; ret (l, false, 0, 0, [])
+    if poc_type =? 0 then l <- rd_ue ;; if 12 <? l then fail else ret (l, false, 0, 0, [])   (* guard 6a5a0a9 *)
     else if poc_type =? 1 then
       dz <- rd_flag ;;
       o1 <- rd_ue ;;
@@ -421,6 +441,7 @@ Section Parsers.
     hp <- parse_sps_high (u32 profile) ;;
     let '(chroma, sep, bdl, bdc, qpp, smp, lists) := hp in
     l2fn <- rd_ue ;;
+    if 12 <? l2fn then fail else                         (* guard 6a5a0a9 *)
     poc_type <- rd_ue ;;
     poc <- parse_sps_poc poc_type ;;
     let '(l2poc, dz, o1, o2, cyc) := poc in
@@ -537,6 +558,171 @@ Section Parsers.
     t <- parse_pps_pre ;;
     parse_pps_post spsmap t.
 
+  (* ---- ParseSliceHeader (avc/slice.go), repaired text: spsID := pps.SeqParameterSetID, recorded
+     in SeqParamID (fix commit, see known_findings/C15.json) *)
+  (* the `for { ... }` loop of ref_pic_list_modification; st = (idc, abs_diff, long_term_pic_num, abs_diff_view) *)
+  Fixpoint rplm_loop (fuel : nat) (st : N * N * N * N) : M (N * N * N * N) :=
+    match fuel with
+    | O => out_of_fuel
+    | S f =>
+        let '(_, ad, lt, av) := st in
+        idc0 <- rd_ue ;;
+        let idc := u32 idc0 in
+        if (idc =? 0) || (idc =? 1) then
+          x <- rd_ue ;; e <- get_err ;;
+          if e then ret (idc, u32 x, lt, av) else rplm_loop f (idc, u32 x, lt, av)
+        else if idc =? 2 then
+          x <- rd_ue ;; e <- get_err ;;
+          if e then ret (idc, ad, u32 x, av) else rplm_loop f (idc, ad, u32 x, av)
+        else if (idc =? 4) || (idc =? 5) then
+          x <- rd_ue ;; e <- get_err ;;
+          if e then ret (idc, ad, lt, u32 x) else rplm_loop f (idc, ad, lt, u32 x)
+        else if idc =? 3 then ret (idc, ad, lt, av)
+        else
+          e <- get_err ;;
+          if e then ret (idc, ad, lt, av) else rplm_loop f (idc, ad, lt, av)
+    end.
+
+  (* the loop of dec_ref_pic_marking; st = (difference_of_pic_nums, long_term_pic_num, long_term_frame_idx, max_long_term_frame_idx_plus1) *)
+  Fixpoint mmco_loop (fuel : nat) (st : N * N * N * N) : M (N * N * N * N) :=
+    match fuel with
+    | O => out_of_fuel
+    | S f =>
+        let '(df, lt, fi, mx) := st in
+        op <- rd_ue ;;
+        st1 <- (if (op =? 1) || (op =? 3) then x <- rd_ue ;; ret (u32 x, lt)
+                else if op =? 2 then x <- rd_ue ;; ret (df, u32 x)
+                else ret (df, lt)) ;;
+        let '(df1, lt1) := st1 in
+        if (op =? 3) || (op =? 6) then
+          x <- rd_ue ;; e <- get_err ;;
+          if e then ret (df1, lt1, u32 x, mx) else mmco_loop f (df1, lt1, u32 x, mx)
+        else if op =? 4 then
+          x <- rd_ue ;; e <- get_err ;;
+          if e then ret (df1, lt1, fi, u32 x) else mmco_loop f (df1, lt1, fi, u32 x)
+        else if op =? 0 then ret (df1, lt1, fi, mx)
+        else
+          e <- get_err ;;
+          if e then ret (df1, lt1, fi, mx) else mmco_loop f (df1, lt1, fi, mx)
+    end.
+
+  (* one iteration of the pred_weight_table loops (values are parsed and dropped) *)
+  Definition pwt_entry (cat_nonzero : bool) : M unit :=
+    lw <- rd_flag ;;
+    u1 <- (if lw then a <- rd_ue ;; b <- rd_ue ;; ret tt else ret tt) ;;
+    if cat_nonzero then
+      cw <- rd_flag ;;
+      if cw then a <- rd_ue ;; b <- rd_ue ;; c <- rd_ue ;; d <- rd_ue ;; ret tt else ret tt
+    else ret tt.
+
+  Definition sps_chroma_array_type (s : sps) : N :=
+    if sps_separate_colour_plane s then 0 else sps_chroma_format_idc s.
+
+  Definition parse_slice_header (spsmap : N -> option sps) (ppsmap : N -> option pps) : M slice_hdr :=
+    hdr <- rd 8 ;;
+    let nalu_type := N.land (u8 hdr) 31 in
+    if negb ((nalu_type =? 1) || (nalu_type =? 2) || (nalu_type =? 5) || (nalu_type =? 19)) then fail else
+    let nal_ref_idc := N.land (N.shiftr hdr 5) 3 in
+    first_mb <- rd_ue ;;
+    slice_type <- rd_ue ;;
+    pps_id <- rd_ue ;;
+    match ppsmap (u32 pps_id) with
+    | None => fail
+    | Some pp =>
+    let sps_id := pps_sps_id pp in
+    match spsmap sps_id with
+    | None => fail
+    | Some sp =>
+    cpl <- (if sps_separate_colour_plane sp then rd 2 else ret 0) ;;
+    frame_num <- rd (sps_log2_max_frame_num_minus4 sp + 4) ;;
+    fld <- (if negb (sps_frame_mbs_only sp)
+            then f <- rd_flag ;; b <- (if f then rd_flag else ret false) ;; ret (f, b)
+            else ret (false, false)) ;;
+    let '(field_pic, bottom) := fld in
+    idr <- (if nalu_type =? 5 then rd_ue else ret 0) ;;
+    poc <- (if sps_pic_order_cnt_type sp =? 0 then
+              lsb <- rd (sps_log2_max_pic_order_cnt_lsb_minus4 sp + 4) ;;
+              d <- (if pps_bottom_field_pic_order pp && negb field_pic then rd_se else ret 0%Z) ;;
+              ret (lsb, d, 0%Z, 0%Z)
+            else if (sps_pic_order_cnt_type sp =? 1) && negb (sps_delta_pic_order_always_zero sp) then
+              d0 <- rd_se ;;
+              d1 <- (if pps_bottom_field_pic_order pp && negb field_pic then rd_se else ret 0%Z) ;;
+              ret (0, 0%Z, d0, d1)
+            else ret (0, 0%Z, 0%Z, 0%Z)) ;;
+    let '(lsb, dbot, d0, d1) := poc in
+    red <- (if pps_redundant_pic_cnt_present pp then rd_ue else ret 0) ;;
+    let st := slice_type mod 5 in
+    let isP := st =? 0 in let isB := st =? 1 in let isI := st =? 2 in
+    let isSP := st =? 3 in let isSI := st =? 4 in
+    direct <- (if isB then rd_flag else ret false) ;;
+    nri <- (if isP || isSP || isB then
+              ov <- rd_flag ;;
+              if ov then
+                l0 <- rd_ue ;;
+                l1 <- (if isB then rd_ue else ret 0) ;;
+                ret (ov, u32 l0, u32 l1)
+              else ret (ov, u32 (pps_num_ref_idx_l0_default_active_minus1 pp),
+                        u32 (pps_num_ref_idx_l1_default_active_minus1 pp))
+            else ret (false, 0, 0)) ;;
+    let '(ov, l0, l1) := nri in
+    m0 <- (if negb isI && negb isSI then
+             f <- rd_flag ;;
+             stt <- (if f then rplm_loop loop_fuel (0, 0, 0, 0) else ret (0, 0, 0, 0)) ;;
+             ret (f, stt)
+           else ret (false, (0, 0, 0, 0))) ;;
+    let '(rplm0, st0) := m0 in
+    m1 <- (if isB then
+             f <- rd_flag ;;
+             stt <- (if f then rplm_loop loop_fuel st0 else ret st0) ;;
+             ret (f, stt)
+           else ret (false, st0)) ;;
+    let '(rplm1, st1) := m1 in
+    let '(idc, absdiff, ltpn0, absview) := st1 in
+    let cat_nz := negb (sps_chroma_array_type sp =? 0) in
+    pw <- (if (pps_weighted_pred pp && (isP || isSP)) || ((pps_weighted_bipred_idc pp =? 1) && isB) then
+             ld <- rd_ue ;;
+             cd <- (if cat_nz then rd_ue else ret 0) ;;
+             x0 <- rep_break_n (l0 + 1) (pwt_entry cat_nz) ;;
+             x1 <- (if isB then rep_break_n (l1 + 1) (pwt_entry cat_nz) else ret []) ;;
+             ret (u32 ld, u32 cd)
+           else ret (0, 0)) ;;
+    let '(luma_denom, chroma_denom) := pw in
+    mk <- (if negb (nal_ref_idc =? 0) then
+             if nalu_type =? 5 then
+               a <- rd_flag ;; b <- rd_flag ;; ret (a, b, false, (0, ltpn0, 0, 0))
+             else
+               ad <- rd_flag ;;
+               stt <- (if ad then mmco_loop loop_fuel (0, ltpn0, 0, 0) else ret (0, ltpn0, 0, 0)) ;;
+               ret (false, false, ad, stt)
+           else ret (false, false, false, (0, ltpn0, 0, 0))) ;;
+    let '(no_out, lt_ref, adaptive, (diffpn, ltpn, ltfi, maxlt)) := mk in
+    cabac <- (if pps_entropy_coding_mode pp && negb isI && negb isSI then rd_ue else ret 0) ;;
+    qpd <- rd_se ;;
+    qs <- (if isSP || isSI then
+             sw <- (if isSP then rd_flag else ret false) ;;
+             d <- rd_se ;; ret (sw, d)
+           else ret (false, 0%Z)) ;;
+    let '(sp_switch, qsd) := qs in
+    db <- (if pps_deblocking_filter_control_present pp then
+             idc <- rd_ue ;;
+             if negb (u32 idc =? 1) then a <- rd_se ;; b <- rd_se ;; ret (u32 idc, a, b)
+             else ret (u32 idc, 0%Z, 0%Z)
+           else ret (0, 0%Z, 0%Z)) ;;
+    let '(ddf, alpha, beta) := db in
+    sgcc <- (if (0 <? pps_num_slice_groups_minus1 pp) && (3 <=? pps_slice_group_map_type pp)
+                && (pps_slice_group_map_type pp <=? 5) then
+               let size := u64 (pps_pic_size_in_map_units_minus1 pp + 1) in
+               let rate := u64 (pps_slice_group_change_rate_minus1 pp + 1) in
+               if rate =? 0 then fail                    (* guard ecb7975 *)
+               else rd (N.log2_up (size / rate + 1))     (* int(math.Ceil(math.Log2(float64(...)))) *)
+             else ret 0) ;;
+    nb <- get_nbytes ;;
+    ret (mkSh slice_type (u32 first_mb) (u32 pps_id) sps_id (u32 cpl) (u32 frame_num) (u32 idr) (u32 lsb)
+              (i32 dbot) (i32 d0) (i32 d1) (u32 red) l0 l1 idc absdiff ltpn absview luma_denom chroma_denom
+              diffpn ltfi maxlt (u32 cabac) (i32 qpd) (i32 qsd) ddf (i32 alpha) (i32 beta)
+              (u32 sgcc) (u32 nb) field_pic bottom direct ov rplm0 rplm1 no_out lt_ref sp_switch adaptive)
+    end end.
+
 End Parsers.
 
 Definition run {St A} (m : St -> res (A * St)) (s : St) : res A :=
@@ -547,6 +733,11 @@ Definition parse_sps_br (beyond : bool) (nalu : list N) : res sps := run (parse_
 
 Definition parse_pps_er (spsmap : N -> option N) (nalu : list N) : res pps := run (parse_pps ER spsmap) (rinit nalu).
 Definition parse_pps_br (spsmap : N -> option N) (nalu : list N) : res pps := run (parse_pps BR spsmap) (binit nalu).
+
+Definition parse_slice_er spsmap ppsmap (nalu : list N) : res slice_hdr :=
+  run (parse_slice_header ER spsmap ppsmap) (rinit nalu).
+Definition parse_slice_br spsmap ppsmap (nalu : list N) : res slice_hdr :=
+  run (parse_slice_header BR spsmap ppsmap) (binit nalu).
 
 (* ------------------------------------------------------------------ flattening for the line protocol *)
 Definition zb (b : bool) : Z := if b then 1%Z else 0%Z.
@@ -615,3 +806,19 @@ Definition flat_pps (p : pps) : list Z :=
       zb (pps_pic_scaling_matrix_present p)]
   ++ flat_scaling (pps_pic_scaling_lists p)
   ++ [pps_second_chroma_qp_index_offset p].
+
+Definition flat_slice (h : slice_hdr) : list Z :=
+  [zn (sh_slice_type h); zn (sh_first_mb_in_slice h); zn (sh_pic_param_id h); zn (sh_seq_param_id h);
+   zn (sh_color_plane_id h); zn (sh_frame_num h); zn (sh_idr_pic_id h); zn (sh_pic_order_cnt_lsb h);
+   sh_delta_pic_order_cnt_bottom h; sh_delta_pic_order_cnt0 h; sh_delta_pic_order_cnt1 h;
+   zn (sh_redundant_pic_cnt h); zn (sh_num_ref_idx_l0_active_minus1 h); zn (sh_num_ref_idx_l1_active_minus1 h);
+   zn (sh_modification_of_pic_nums_idc h); zn (sh_abs_diff_pic_num_minus1 h); zn (sh_long_term_pic_num h);
+   zn (sh_abs_diff_view_idx_minus1 h); zn (sh_luma_log2_weight_denom h); zn (sh_chroma_log2_weight_denom h);
+   zn (sh_difference_of_pic_nums_minus1 h); zn (sh_long_term_frame_idx h);
+   zn (sh_max_long_term_frame_idx_plus1 h); zn (sh_cabac_init_idc h);
+   sh_slice_qp_delta h; sh_slice_qs_delta h; zn (sh_disable_deblocking_filter_idc h);
+   sh_slice_alpha_c0_offset_div2 h; sh_slice_beta_offset_div2 h; zn (sh_slice_group_change_cycle h);
+   zn (sh_size h); zb (sh_field_pic h); zb (sh_bottom_field h); zb (sh_direct_spatial_mv_pred h);
+   zb (sh_num_ref_idx_active_override h); zb (sh_ref_pic_list_modification_l0 h);
+   zb (sh_ref_pic_list_modification_l1 h); zb (sh_no_output_of_prior_pics h);
+   zb (sh_long_term_reference h); zb (sh_sp_for_switch h); zb (sh_adaptive_ref_pic_marking_mode h)].
